@@ -63,7 +63,8 @@ def run_case(case: dict) -> dict:
     ev = []
 
     def live():
-        return [{"id": t["id"], "d": t["d"], "period_us": t["period_us"], "rtr": t["rtr"]} for t in bus.live_tasks()]
+        return [{"id": t["id"], "d": t["d"], "period_us": t["period_us"], "rtr": t["rtr"], "ext": t["ext"]}
+                for t in bus.live_tasks()]
 
     def log(e, raised=False):
         e["raised"] = raised
